@@ -7,7 +7,7 @@ import time
 from . import core
 
 FIXED = [[97]]          # the fixed table of the binlst configuration defines "a"
-MODES = ["binary", "binlst"]  # TEMP
+MODES = ["text", "pretty", "binary", "binlst"]
 
 
 def export_alphabet(wd):
